@@ -243,10 +243,10 @@ def run(ctx: Ctx) -> None:
 
     # ---------------------------------------------------------------- R17.6
     from . import c16
-    from ..report import SubCtx
+    from ..report import SubCtx, run_shared
     # the families already listed for C16 are the same defect seen through Value.format(); they stay keyed under C16 only
     drop = {k["key"] for k in _known()}
-    c16.run(SubCtx(ctx, {"R16.1": ("R17.6", "token values inside types re-lex to the same tokens (pair analysis of C16)")}, drop))  # type: ignore[arg-type]
+    run_shared(ctx, c16.run, {"R16.1": ("R17.6", "token values inside types re-lex to the same tokens (pair analysis of C16)")}, drop)
 
 
 def type_id_array_suffix(ctx: Ctx, rid: str, pm: ParserModel) -> None:
